@@ -1,0 +1,13 @@
+//go:build verif
+
+package shaping
+
+import "github.com/go-text/typesetting/di"
+
+// VerifCountClusters exposes countClusters to the verification harness.
+func VerifCountClusters(glyphs []Glyph, textLen int, dir di.Progression) {
+	countClusters(glyphs, textLen, dir)
+}
+
+// VerifClamp exposes clamp to the verification harness.
+func VerifClamp(val, low, high int) int { return clamp(val, low, high) }
